@@ -14,7 +14,7 @@ from ..selftest import rec_json
 from .recog import Ref, events_same
 
 PROP = 'C03'
-PROBE = '\x9b1;2hZ'
+PROBE = '\x9b1;2hZ\x9d2;T\x07'
 
 
 def valid_scalar(c):
@@ -124,7 +124,7 @@ def path_seq(ctx, job, box):
         ig = run.impl_ground()
         checks.append(Check(ig is True, run.scenario, run.describe,
                             label='after a complete sequence plus the probe the recogniser is not in ground state'))
-        checks.append(cmp_events('(after the probe CSI 1;2 h Z: state left over from the previous sequence)'))
+        checks.append(cmp_events('(after the probe CSI 1;2 h Z OSC 2;T BEL: state left over from the previous sequence)'))
     return checks
 
 
@@ -133,7 +133,7 @@ def jobs(tier):
     L = 4 if tier == 'quick' else 5
     js.append(Job('ground/len%d' % L, path_seq, len=L, prop=PROP))
     shaped = [('\x1b[', 3), ('\x9b', 3), ('\x9b1;', 3), ('\x9b?', 3), ('\x1b]', 3), ('\x9d0;', 3), ('\x1b]2;ab', 2),
-              ('\x9b' + '9' * 4, 2), ('\x9b' + '9' * 20, 1), ('\x9b' + '1' * 25 + ';', 2), ('\x9b12;34;56;7', 2),
+              ('\x9b' + '9' * 4, 2), ('\x9b1000', 2), ('\x9b0000', 2), ('\x9b' + '9' * 20, 1), ('\x9b' + '1' * 25 + ';', 2), ('\x9b12;34;56;7', 2),
               ('\x9b1$', 2), ('\x1b(', 2), ('\x1b)', 2), ('\x1b%', 2), ('\x1b#', 2), ('\x9b1;2\x07', 2)]
     if tier == 'thorough':
         shaped += [('\x1b[', 4), ('\x9b1;2;', 3), ('\x9d2;', 4), ('\x9b?25', 2), ('\x9b' + '0' * 30 + '7', 1)]
